@@ -307,8 +307,8 @@ def rule_drop_gated(ctx):
     rng = [s for bi, si, s in fn.stmts(lambda s: s["k"] == "assign" and s["rv"].get("agg") == "adt" and s["rv"].get("adt", "").endswith("ops::Range"))]
     ok_range = False
     for s in rng:
-        a = fn.expr_of_operand(s["rv"]["ops"][0])
-        b = fn.expr_of_operand(s["rv"]["ops"][1])
+        a = strip_casts(fn.expr_of_operand(s["rv"]["ops"][0]))
+        b = strip_casts(fn.expr_of_operand(s["rv"]["ops"][1]))
         if a[0] == "const" and a[1] == 0 and b[0] == "arg" and b[1] == 2:
             ok_range = True
     # ... and the entry loop is left only when the range is exhausted: a bucket can have never-filled slots anywhere
